@@ -14,6 +14,12 @@ COMMON_NOTE = (
 )
 TECH = "symbolic execution of the real Python on z3-backed proxy scalars (decision-tree re-execution), exact parametric-LP stub, SMT (QF_LRA) obligations per path, counterexamples replayed on the unshimmed code"
 CHECKS = {
+    "C10": {
+        "text": "Symbolic execution of to_machine_dict/from_dict, to_dict/from_strings, write/read_contracts_to_file, the whole printer (_lhs_str, _number_to_string, opposite-term folding with np.isclose) and then the real parser on the printer's output, with up to 3 (thorough 5) numbers symbolic (constants, one coefficient) constrained to the property's domain. format(v,'.4g') is modelled numerically (Int mantissa, LIRA); printed numerals are placeholders mapped back to the rounded values. Machine dict: equal and hash-equal, constants provably identical. File/string forms: same interface; meaning of the read-back contract equals the reference reading of what was printed (4 significant digits; first term of a folded pair governs both halves), tolerant both ways; folds only for opposite terms; every printed string accepted. A concrete mode exercises real formatting (exponent notation) and lexing.",
+        "design_ref": "DESIGN.md section 8 C10",
+        "note": COMMON_NOTE + " json.dumps/load in fileio are stubbed in symbolic runs (opaque token + remembered copy; real files are written and read); replays use the real json.",
+        "technique": "symbolic execution of the real printer and parser on z3-backed numbers (decision-tree re-execution), numeric model of .4g formatting (QF_LIRA), SMT equivalence queries per path, replay on the unshimmed code",
+    },
     "C09": {
         "text": "The real pyparsing grammar, every parse action and all of syntax/data.py run on strings generated from the documented grammar in which every numeral is a digit placeholder bound to a fresh non-negative real: coefficient products, cancellation to zero, equality of absolute-term groups and zero divisors are branch conditions explored by z3. Per accepting path one QF_NRA query decides 'parsed inequalities <=> written relation' for all points and numerals; convexity errors are accepted iff a syntactic absolute-term group has net coefficient <= 0; value-dependent syntax errors only for a zero divisor; malformed mutants must raise the syntax error; parsing twice must agree. A second mode uses concrete numerals in several spellings and spacings.",
         "design_ref": "DESIGN.md section 8 C09",
